@@ -846,4 +846,107 @@ theorem pickAction_ti {π : TPar} {A : Nat} {Hn : Int} {kw J : Nat} {st : St σ}
 
 end
 
+
+/-! ### `pick_next` -/
+
+section
+variable {σ : Type}
+
+theorem PI.monoJ {π : TPar} {A : Nat} {Hn : Int} {kw J J' : Nat} {st : St σ} (h : PI π A Hn kw J st) (hJ : J ≤ J') :
+    PI π A Hn kw J' st :=
+  ⟨h.t0le, h.nowle, h.wf, h.ord, h.q, h.sides, h.net.mono hJ⟩
+
+/-- **`pick_next` under the time-bound invariant**: it raises no environmental fault, keeps the
+    invariant (using at most one unit `D` of the aggregate-delay budget), leaves the frameworks
+    and the clock alone, and the event it returns is within `S + W` of the horizon `Hn` — and
+    within `W` of the clock whenever a TunnelSent is still queued afterwards. -/
+theorem pickNext_ti {π : TPar} {A : Nat} {Hn : Int} {kw J : Nat} (hok : π.OK) (hJM : J + π.D ≤ π.JM)
+    (hHb : π.Tm + π.JM ≤ Hn) (hAD : A + TB.W ≤ π.D) :
+    ∀ (fuel : Nat) (st : St σ), PI π A Hn kw J st →
+    (∀ f, pickNext fuel st = some (.error f) → f.isBug = true) ∧
+    (∀ e st', pickNext fuel st = some (.ok (e, st')) →
+      PI π A Hn kw (J + π.D) st' ∧ SameFw st st' ∧ st'.now = st.now ∧
+      ∀ ev, e = some ev → ev.time ≤ Hn + ((π.S + TB.W : Nat) : Int) ∧
+        (st'.sq.hasBlocked → ev.time ≤ st.now + (TB.W : Int))) := by
+  have hJd : J ≤ durMax := by have := hok.jm; omega
+  intro fuel
+  induction fuel with
+  | zero => intro st _; exact ⟨fun f h => (by simp [pickNext] at h), fun e st' h => (by simp [pickNext] at h)⟩
+  | succ n ih =>
+    intro st h
+    unfold pickNext
+    obtain ⟨p, hd⟩ := pickDecide_ok st
+    rw [hd]
+    cases p with
+    | nothing =>
+      simp only []
+      refine ⟨fun f hf => (by cases hf), fun e st' hs => ?_⟩
+      cases hs
+      exact ⟨h.monoJ (Nat.le_add_right _ _), SameFw.refl _, rfl, fun ev hev => by cases hev⟩
+    | agg =>
+      simp only []
+      have ha := pickAgg_ti h hJd
+      cases hag : pickAgg st with
+      | error f0 => exact ⟨fun f hf => (by cases hf; exact ha.1 f0 hag), fun e st' hs => (by cases hs)⟩
+      | ok st1 =>
+        obtain ⟨hp1, hs1, hn1, _⟩ := ha.2 st1 hag
+        have := ih st1 hp1
+        refine ⟨this.1, fun e st' hs => ?_⟩
+        obtain ⟨hp2, hs2, hn2, hev⟩ := this.2 e st' hs
+        refine ⟨hp2, hs1.trans hs2, hn2.trans hn1, ?_⟩
+        rw [← hn1]; exact hev
+    | blockExp b c =>
+      simp only []
+      have hb := pickBlockExp_ti h hok hd hAD
+      cases hbe : pickBlockExp st b c with
+      | error f0 => exact ⟨fun f hf => (by cases hf; exact hb.1 f0 hbe), fun e st' hs => (by cases hs)⟩
+      | ok pr =>
+        obtain ⟨e1, st1⟩ := pr
+        obtain ⟨hp1, hs1, hn1, _, het⟩ := hb.2 e1 st1 hbe
+        refine ⟨fun f hf => (by cases hf), fun e st' hs => ?_⟩
+        cases hs
+        refine ⟨hp1, hs1, hn1, fun ev hev => ?_⟩
+        cases hev
+        have := h.nowle
+        exact ⟨by push_cast; omega, fun _ => het⟩
+    | queue q qid c =>
+      simp only []
+      have hq := pickQueue_ti h hd (by omega) hHb
+      cases hqe : pickQueue st q qid c with
+      | error f0 => exact ⟨fun f hf => (by cases hf; exact hq.1 f0 hqe), fun e st' hs => (by cases hs)⟩
+      | ok pr =>
+        obtain ⟨e1, st1⟩ := pr
+        obtain ⟨hp1, hs1, hn1, het, hblk⟩ := hq.2 e1 st1 hqe
+        refine ⟨fun f hf => (by cases hf), fun e st' hs => ?_⟩
+        cases hs
+        refine ⟨hp1.monoJ (Nat.le_add_right _ _), hs1, hn1, fun ev hev => ?_⟩
+        cases hev
+        exact ⟨het, hblk⟩
+    | timer i =>
+      simp only []
+      have ht := pickTimer_ti (i := i) h
+      cases hte : pickTimer st i with
+      | error f0 => exact ⟨fun f hf => (by cases hf; exact ht.1 f0 hte), fun e st' hs => (by cases hs)⟩
+      | ok st1 =>
+        obtain ⟨hp1, hs1, hn1⟩ := ht.2 st1 hte
+        have := ih st1 hp1
+        refine ⟨this.1, fun e st' hs => ?_⟩
+        obtain ⟨hp2, hs2, hn2, hev⟩ := this.2 e st' hs
+        refine ⟨hp2, hs1.trans hs2, hn2.trans hn1, ?_⟩
+        rw [← hn1]; exact hev
+    | action s =>
+      simp only []
+      have ht := pickAction_ti (s := s) h
+      cases hte : pickAction st s with
+      | error f0 => exact ⟨fun f hf => (by cases hf; exact ht.1 f0 hte), fun e st' hs => (by cases hs)⟩
+      | ok st1 =>
+        obtain ⟨hp1, hs1, hn1⟩ := ht.2 st1 hte
+        have := ih st1 hp1
+        refine ⟨this.1, fun e st' hs => ?_⟩
+        obtain ⟨hp2, hs2, hn2, hev⟩ := this.2 e st' hs
+        refine ⟨hp2, hs1.trans hs2, hn2.trans hn1, ?_⟩
+        rw [← hn1]; exact hev
+
+end
+
 end Mb.Sim
